@@ -54,6 +54,11 @@ def install(E):
             return z3.And(*parts)
         return ens
 
+    # a response goes out only when no completion (middleware / handler task) is outstanding: the completion callback itself
+    # sends it, or it is sent before any task was started.  Needed for I3b (pending >= 1 implies not answered).
+    no_pending = [("[INV] no middleware / handler completion is outstanding when a response is sent",
+                   lambda ctx, a: ctx.getf(a[0], "g_pending").z == 0)]
+
     def send_modifies(ctx, args):
         p = args[0]
         t = ctx.heap[p.oid]["g_T"]
@@ -74,7 +79,7 @@ def install(E):
         return z3.Implies(cond, z3.And(status_kept(ctx.getf(r, "status").z, ctx.getf(r, "meta").z, h, b),
                                        z3.Implies(ok_in, z3.And(h == hdr, b == bb))))
     E.caller_contracts[f"{SP}._send_response"] = Contract(
-        f"{SP}._send_response", ensures=[("effect", send_effect(resp_extra))], result=T.none, modifies=send_modifies)
+        f"{SP}._send_response", requires=no_pending, ensures=[("effect", send_effect(resp_extra))], result=T.none, modifies=send_modifies)
 
     def err_extra(ctx, old, args, cond, h, b):
         status = ctx.force(args[1])
@@ -82,7 +87,7 @@ def install(E):
         msg = ctx.force(args[2]).z
         return z3.Implies(cond, status_kept(code, msg, h, b))
     E.caller_contracts[f"{SP}._send_error_response"] = Contract(
-        f"{SP}._send_error_response", ensures=[("effect", send_effect(err_extra))], result=T.none, modifies=send_modifies)
+        f"{SP}._send_error_response", requires=no_pending, ensures=[("effect", send_effect(err_extra))], result=T.none, modifies=send_modifies)
 
     def refusal_extra(ctx, old, args, cond, h, b):
         """a component's refusal line '<dd> <meta>CRLF' (dd in 10..69, meta encodable, free of CR/LF,
@@ -99,7 +104,7 @@ def install(E):
                         z3.Not(z3.Or(*sur)) if sur else z3.BoolVal(True))
         return z3.Implies(z3.And(cond, shaped), z3.And(h == z3.Concat(dd, SV(" "), menc, SV("\r\n")), b == SV("")))
     E.caller_contracts[f"{SP}._send_middleware_refusal"] = Contract(
-        f"{SP}._send_middleware_refusal", ensures=[("effect", send_effect(refusal_extra))], result=T.none, modifies=send_modifies)
+        f"{SP}._send_middleware_refusal", requires=no_pending, ensures=[("effect", send_effect(refusal_extra))], result=T.none, modifies=send_modifies)
 
     def gpc_result(ctx, args):
         def mkit(c, hint):
@@ -530,7 +535,7 @@ def install(E):
                       z3.Implies(z3.Not(z3.And(present, first, was_open)), out1 == out0))
     contracts["_send_response"] = Contract(
         f"{SP}._send_response", make_args=sr_args,
-        requires=[("caller has taken the request", lambda ctx, a: z3.BoolVal(True))],
+        requires=no_pending,
         ensures=[("[C01] never raises, whatever the response value", no_raise),
                  ("[C01,C06] open transport: exactly one well-formed header (+body only for 2x) appended, a well-formed response goes out byte for byte, then close; absent/closed transport or second call: nothing", sr_post),
                  ("[INV] invariant preserved", inv_post)])
@@ -596,7 +601,7 @@ def install(E):
         from pyvc.engine import VEnum
         return [p, VEnum("nauyaca.protocol.status:StatusCode", "SYMBOLIC", VInt(code)), VStr(z3.String("message"))], {}
     contracts["_send_error_response"] = Contract(
-        f"{SP}._send_error_response", make_args=se_args,
+        f"{SP}._send_error_response", make_args=se_args, requires=no_pending,
         ensures=[("[C01] never raises", no_raise),
                  ("[C01,C08,C15] at most one well-formed response; an error status 40-69 is kept ('<status> ' prefix), no body; then close", own(None, err_extra)),
                  ("[INV] invariant preserved", inv_post)])
@@ -605,7 +610,7 @@ def install(E):
         p, t = env.mk_proto(ctx, state="any", transport="maybe")
         return [p, mk(ctx, T.opt(T.str()), "error_response", True)], {}
     contracts["_send_middleware_refusal"] = Contract(
-        f"{SP}._send_middleware_refusal", make_args=mr_args,
+        f"{SP}._send_middleware_refusal", make_args=mr_args, requires=no_pending,
         ensures=[("[C01] never raises", no_raise),
                  ("[C01,C04] at most one well-formed response; a well-formed refusal line of the component is relayed byte for byte; anything else becomes a 40 refusal; then close", own(None, refusal_extra)),
                  ("[INV] invariant preserved", inv_post)])
